@@ -72,6 +72,10 @@ pub struct Job {
     /// scripted schedule prefix: see `run_script`
     #[serde(default)]
     pub script: Vec<Value>,
+    /// probe (C12): {"reader": t, "freeze_after": j, "max": B}: run the other threads for j steps
+    /// under the strategy, freeze them, run thread t alone
+    #[serde(default)]
+    pub probe: Value,
 }
 
 pub fn hash_mode(h: &HasherSpec) -> HashMode {
@@ -406,6 +410,25 @@ fn run_job(job: &Job) -> Value {
             run_script(&exec, &job.script);
             let mut strat = Strategy::from_json(&job.sched, nthreads);
             let budget = if job.budget == 0 { 200_000 } else { job.budget };
+            if job.probe.is_object() {
+                let reader = job.probe["reader"].as_u64().unwrap_or(0) as usize;
+                let j = job.probe["freeze_after"].as_u64().unwrap_or(0);
+                let maxs = job.probe["max"].as_u64().unwrap_or(100_000);
+                // the writers run for j steps (the reader is held back) ...
+                let taken = exec.run_excluding(&mut strat, j, reader);
+                // ... are frozen wherever they are, and the reader runs alone
+                let snap = {
+                    let hh = H(hash_mode(&job.hasher));
+                    observe(&coll, &hh, &[], true)
+                };
+                let before = exec.counters(reader);
+                let n = exec.run_solo(reader, maxs);
+                let after = exec.counters(reader);
+                let done = exec.is_done(reader);
+                exec.log(json!({"e": "probe", "reader": reader, "writer_steps": taken, "reader_steps": n,
+                    "done": done as u8, "locks": after.1 - before.1, "parks": after.2 - before.2, "spins": after.3 - before.3,
+                    "snap": snap["snap"].clone()}));
+            }
             outcome = exec.run(&mut strat, budget);
             drift = strat.drift();
             if outcome == Outcome::Done {
